@@ -6,7 +6,7 @@ from __future__ import annotations
 import ast
 
 from ..cfg import CFG
-from ..astutil import cond_terms, inside, norm_cmp
+from ..astutil import cond_terms, forced_by, inside, norm_cmp
 from ..core import AnalysisError, const_value, walk_own
 from ..defuse import DefUse, Terms, show, walk_term
 from ..defuse import key as tkey
@@ -264,7 +264,9 @@ def _is_valid(ctx, f):
                 ())
 
     if n_next == 2:
-        dd = [r for r in falses if (DD(NEXT), True) in conds(r)]
+        dd = [r for r in falses if not inside(r, lp) and forced_by(
+            cfg, T, r, trues[0],
+            lambda a: True if a == DD(NEXT) else None)]
         why = "no rejection of a DefaultDirection second line"
     else:
         # the loop's first pass sees the second line: a DefaultDirection
@@ -295,9 +297,9 @@ def _is_valid(ctx, f):
               "a DefaultDirection second line makes the file invalid",
               why, node=f.node)
     # second line: seen by the loop, chained into it, or compared on its own
-    second = [r for r in falses if not inside(r, lp) and any(
-        isinstance(c, tuple) and mismatch(c, W_HDR, W_HDR)
-        for c in conds(r))]
+    MIS = norm_cmp(("cmp", "!=", W_HDR, W_HDR), True)
+    second = [r for r in falses if not inside(r, lp) and forced_by(
+        cfg, T, r, trues[0], lambda a: True if a == MIS else None)]
     ctx.check(IT == CHAIN or n_next == 1 or len(second) >= 1,
               "C19b-second-line-checked", f,
               "the second line's width is compared with the header's",
@@ -334,7 +336,7 @@ def _is_valid_all_form(ctx, f, T, cfg, ret, falses, NEXT, width):
               "the same column separator", "", node=ret)
     DD = ("mcall", NEXT, "startswith", (("const", "DefaultDirection"),), ())
     dd = [r for r in falses
-          if (DD, True) in cond_terms(cfg, T, r)]
+          if forced_by(cfg, T, r, ret, lambda a: True if a == DD else None)]
     ctx.check(len(dd) >= 1 and cfg.every_path_passes(
         cfg.entry.id, cfg.node_of(ret).id,
         {cfg.node_of(cfg.stmt_of(t_)).id
@@ -344,10 +346,10 @@ def _is_valid_all_form(ctx, f, T, cfg, ret, falses, NEXT, width):
         "no rejection of a DefaultDirection line", node=f.node)
     n_next = len([n for n in walk_own(f.node) if isinstance(n, ast.Call)
                   and T.of(n) == NEXT])
-    explicit = [r for r in falses if any(
-        isinstance(c_, tuple) and c_[0] == "ne" and c_[1] == c_[2] == W_HDR
-        for c_ in [norm_cmp(x, o) or (x, o)
-                   for x, o in cond_terms(cfg, T, r)])]
+    W2 = width(NEXT)      # both next(f_in) calls render alike: the second
+    MIS = norm_cmp(("cmp", "!=", W2, W_HDR), True)
+    explicit = [r for r in falses if forced_by(
+        cfg, T, r, ret, lambda a: True if a == MIS else None)]
     ctx.check(IT in chains or n_next == 1 or explicit,
               "C19b-second-line-checked", f,
               "the second line's width is compared with the header's",
